@@ -33,12 +33,18 @@ def run(ctx):
                    'shared input core', minimum=0)
     rpf = ctx.rule('R-POLICYFWD', 'a function instantiated with a FailPolicy hands the same policy to every callee that '
                    'is parameterised by one (entry point -> when::When -> strategy class)', minimum=9)
+    rout = ctx.rule('R-OUTCOME', 'every Promise::Set of a strategy hands on an accessor of the consumed Result, the saved '
+                    'failure or the collected values', minimum=6)
+    rfv = ctx.rule('R-FIRSTVALUE', 'Any<FirstFail>: the value branch wins iff the old state is not the value state',
+                   minimum=1)
     rfw = ctx.rule('R-FORWARD', 'a WhenAny wrapper hands an input back as the output outside the strategy only for a '
                    'single input, or a Ready input that (policy None) completed / (other policies) holds a value',
                    minimum=9)
     for cfg, fb in sorted(fbs.items()):
         ctx.guard(lambda: lib_when.check_policy_forward(ctx, fb, rpf, r'^yaclib::WhenAny$', True))
         ctx.guard(lambda: lib_when.check_any_forward(ctx, fb, rfw))
+        ctx.guard(lambda: lib_when.check_outcome(ctx, fb, rout, ('yaclib::when::Any',)))
+        ctx.guard(lambda: lib_when.check_firstvalue(ctx, fb, rfv))
         ctx.guard(lambda: lib_core.check_move_sites(ctx, fb, rmv, lambda f: 'async/when' in f.file))
         ctx.guard(lambda: lib_core.check_loop_caller(ctx, fb, rlc, lambda f: f.clsq.startswith('yaclib::when::')))
         fns = lib_accessor.functions_with_accessors(fb, ANY_FILES)
